@@ -49,6 +49,9 @@ type concCase struct {
 	IgnA   []int           `json:"ignA"`
 	Script []concEv        `json:"script"`
 	Final  json.RawMessage `json:"final,omitempty"`
+	// PauseA: the responder's request hook pauses A on arrival and A is resumed at once, before the script starts (nothing
+	// changes for the model: the request's extensions were taken in when it arrived)
+	PauseA bool `json:"pauseA,omitempty"`
 }
 type concObs struct {
 	DA        []int    `json:"dA"` // leaves delivered for A, in order
@@ -237,6 +240,9 @@ func runConcCase(c concCase) (obs concObs) {
 		ha.ValidateRequest()
 		if n := nameOf(r.ID()); n != "?" {
 			ha.UsePersistenceOption("for" + n)
+			if n == "A" && c.PauseA {
+				ha.PauseResponse()
+			}
 		}
 	})
 	gsR.RegisterOutgoingRequestHook(func(p peer.ID, r graphsync.RequestData, ha graphsync.OutgoingRequestHookActions) {
@@ -384,6 +390,17 @@ func runConcCase(c concCase) (obs concObs) {
 		}
 	}
 	rsA := start(idA, dA, extsA...)
+	if c.PauseA {
+		for t := time.Now(); time.Since(t) < 2*time.Second; {
+			setupPass(2 * time.Millisecond)
+			if gsS.(*gsimpl.GraphSync).PeerState(pR).IncomingState.RequestStates[idA] == graphsync.Paused {
+				cctx, cc := context.WithTimeout(ctx, time.Second)
+				_ = gsS.Unpause(cctx, idA)
+				cc()
+				break
+			}
+		}
+	}
 	if !waitForWith(waitFor, setupPass, "hook:A") {
 		obs.Desync = "set-up: the responder never reached A's first leaf"
 	}
